@@ -7,8 +7,8 @@
 -/
 import FcModel.MeshEqual
 import FcModel.Spec.Predicates
-namespace Fc.Spec
-open Fc
+namespace Fc.C03
+open Fc Fc.Spec
 
 /-! ### the declarative statement of "the two meshes are equal" -/
 
@@ -140,4 +140,4 @@ def ladder {α} (ops : LadderOps α) (fl : LadderFlags) (S R : α) : LadderResul
     else ladderReorder ops fl S1 R1 r1
   else ladderReorder ops fl S R r0
 
-end Fc.Spec
+end Fc.C03
